@@ -487,7 +487,7 @@ func (p c02) leafrefs(c *core.Ctx, idx int) {
 	r := c.Rand
 	targets := []struct{ typ, format string }{{"type int32;", "int32"}, {"type string;", "string"}, {"type tt;", "uint16"}, {"type enumeration { enum a; }", "enumeration"}, {"type boolean;", "boolean"}}
 	t := targets[r.Intn(len(targets))]
-	variant := r.Intn(14)
+	variant := r.Intn(15)
 	var body, extra string
 	mods := map[string]string{}
 	nExp := 1
@@ -527,6 +527,15 @@ func (p c02) leafrefs(c *core.Ctx, idx int) {
 		body = "  grouping g { leaf x { type lr; } }\n" +
 			"  container c0 { leaf tgt { type int32; } uses g; }\n  container c1 { leaf tgt { type string; } uses g; }\n"
 		nExp = 2
+	case 14: // a leafref that is a member of a typedef's union: resolved for each leaf that uses the typedef
+		extra = "  typedef ul { type union { type leafref { path \"../tgt\"; } type decimal64 { fraction-digits 1; } } }\n"
+		if r.Intn(2) == 0 {
+			extra += "  typedef ul2 { type ul; }\n"
+			body = "  container c0 { leaf tgt { type int32; } leaf x { type ul2; } }\n  container c1 { leaf tgt { type string; } leaf x { type ul2; } }\n"
+		} else {
+			body = "  container c0 { leaf tgt { type int32; } leaf x { type ul; } }\n  container c1 { leaf tgt { type string; } leaf x { type ul; } }\n"
+		}
+		nExp = 2
 	case 5: // into an imported module
 		tt := t.typ
 		if strings.Contains(tt, "tt;") {
@@ -555,7 +564,7 @@ func (p c02) leafrefs(c *core.Ctx, idx int) {
 	if c.Guard("load", func() { m, err = c02load(mods) }) {
 		return
 	}
-	vname := []string{"relative", "forward", "absolute-into-list", "leafref-to-leafref", "typedef-in-grouping-x2", "imported-module", "out-of-a-case", "inside-nested-choice", "two-up-from-a-case", "grouping-used-at-two-target-types", "out-of-two-choice-levels", "out-of-three-shorthand-levels", "two-up-thru-two-choices", "typedef-leafref-at-two-target-types"}[variant]
+	vname := []string{"relative", "forward", "absolute-into-list", "leafref-to-leafref", "typedef-in-grouping-x2", "imported-module", "out-of-a-case", "inside-nested-choice", "two-up-from-a-case", "grouping-used-at-two-target-types", "out-of-two-choice-levels", "out-of-three-shorthand-levels", "two-up-thru-two-choices", "typedef-leafref-at-two-target-types", "leafref-member-of-typedef-union"}[variant]
 	if err != nil {
 		c.Violate("leafref/load-error/"+vname, "%v\n%s", err, all)
 		return
@@ -567,6 +576,32 @@ func (p c02) leafrefs(c *core.Ctx, idx int) {
 	}
 	if variant == 11 {
 		want.format = "leafref-list" // Resolve() gives the type of the target leaf
+	}
+	if variant == 14 {
+		ld := leafDumps(m, name)
+		if len(ld) != 2 {
+			c.Violate("leafref/expansion-count", "expected 2 expansions, got %d\n%s", len(ld), all)
+			return
+		}
+		for i, wantFmt := range []string{"int32", "string"} {
+			c.Eval()
+			t, _ := ld[i]["type"].(map[string]interface{})
+			ul, _ := t["union"].([]interface{})
+			got := "<no union members>"
+			if len(ul) == 2 {
+				um, _ := ul[0].(map[string]interface{})
+				got = fmt.Sprintf("member format %v", um["format"])
+				if rs, _ := um["resolved"].(map[string]interface{}); rs != nil {
+					got += fmt.Sprintf(" resolving to %v", rs["format"])
+				} else {
+					got += " resolving to itself"
+				}
+			}
+			if want := "member format leafref resolving to " + wantFmt; got != want {
+				c.Violate("leafref/union-member-target/"+vname, "use %d of the typedef: %s, want %s\n%s", i, got, want, all)
+			}
+		}
+		return
 	}
 	if variant == 9 || variant == 13 {
 		// per expansion
